@@ -389,7 +389,7 @@ def build_configs(tier, seed):
     add('tet2/k=1/free=0,4', mesh='tet2', k=1, free=None if not quick else None, sub={'s0': [0], 's1': [1]}, bnd={'b': [0, 1]}, timeout=1500 if quick else 3000,
         maxpaths=16 if quick else 256)
     # second-order classes with straight facets
-    for mesh, cls in [('tri2', 'MeshTri2'), ('quad2', 'MeshQuad2')] + ([] if quick else [('tet1', 'MeshTet2'), ('hex1', 'MeshHex2')]):
+    for mesh, cls in [('tri2', 'MeshTri2'), ('quad2', 'MeshQuad2'), ('tet2', 'MeshTet2'), ('hex2', 'MeshHex2')] + ([] if quick else [('tet1', 'MeshTet2'), ('hex1', 'MeshHex2')]):
         cfgs.append(dict(name='second-order/%s/%s' % (mesh, cls), fn=second_order_config,
                          kw=dict(mesh=mesh, cls=cls, sub={'s0': [0]}, bnd={'b': [0, 1]}), opts=dict(timeout=900 if quick else 3000, maxpaths=64)))
     # hexahedra
